@@ -1644,6 +1644,18 @@ func (w *c16) finish() {
 }
 
 // WorldC16 is the entry point for property C16.
+// WorldC14 runs the C16 histories on behalf of C14 (no lock left behind, every
+// call returns) for the pool-backed file allocator.
+func WorldC14() simrun.World {
+	return func(r *simrun.Run) {
+		w := newC16(r)
+		w.c14 = true
+		w.run()
+		r.SimTime = 0
+		w.finish()
+	}
+}
+
 func WorldC16() simrun.World {
 	return func(r *simrun.Run) {
 		w := newC16(r)
